@@ -99,3 +99,38 @@ Theorem C11_T8_empty_frame_keeps_numbering v th now ts : v_open v = [] ->
             s_v s = v /\ s_th s = th /\ s_out s = [].
 Proof. exact (splitFrame_code_empty_frame v th now ts). Qed.
 Print Assumptions C11_T8_empty_frame_keeps_numbering.
+
+(* T9: the lifecycle calls themselves. start(), stop(), decodePacket() and the destructor of lidar_driver_impl.hpp are regenerated on every
+   run as statement trees and interpreted over the model's state (Proofs/LifecycleCode.v: what each statement does to flags, threads and
+   the queue; a std::thread assigned while joinable terminates; join() on the decoding thread returns only after the exit request;
+   the open frame is cleared only once that thread is gone). For every state the model can reach (LInv) the interpreted current
+   source takes exactly the model's step and returns the model's value: start() and stop() are idempotent, start() before init() is
+   refused without effect, stop() joins - after asking - and returns, decodePacket() queues on an initialised RAW_PACKET driver only,
+   the destructor stops first *)
+From RS Require Import Proofs.LifecycleCode.
+Theorem C11_T9_start_code_is_model s ex : LInv s -> l_alive s = true ->
+  exists m r, lrun_code LidarDriverImpl_start_effects (mk_lm s ex) = Ret m r /\
+              m_l m = fst (lstep s LStart) /\ obs_of_ret r = snd (lstep s LStart) /\
+              (l_start s = false -> l_init s = true -> m_exit m = false).
+Proof. exact (start_code_is_model s ex). Qed.
+Print Assumptions C11_T9_start_code_is_model.
+Theorem C11_T9_stop_code_is_model s ex : LInv s -> l_alive s = true ->
+  exists m, (lrun_code LidarDriverImpl_stop_effects (mk_lm s ex) = Go m \/ exists r, lrun_code LidarDriverImpl_stop_effects (mk_lm s ex) = Ret m r) /\
+            m_l m = fst (lstep s LStop).
+Proof. exact (stop_code_is_model s ex). Qed.
+Print Assumptions C11_T9_stop_code_is_model.
+Theorem C11_T9_decodePacket_code_is_model s ex : l_alive s = true ->
+  exists m, lrun_code LidarDriverImpl_decodePacket_effects (mk_lm s ex) = Go m /\ m_l m = fst (lstep s LFeed) /\ m_exit m = ex.
+Proof. exact (decodePacket_code_is_model s ex). Qed.
+Theorem C11_T9_destructor_code_is_model s ex : LInv s -> l_alive s = true ->
+  LidarDriverImpl_dtor_effects = [EStmt "stop()"%string] /\
+  exists m, (lrun_code LidarDriverImpl_stop_effects (mk_lm s ex) = Go m \/ exists r, lrun_code LidarDriverImpl_stop_effects (mk_lm s ex) = Ret m r) /\
+            members_destroyed (m_l m) = Some (fst (lstep s LDestroy)).
+Proof. exact (dtor_code_is_model s ex). Qed.
+(* non-vacuity: a started socket driver is a reachable state; stop() on it leaves no thread behind *)
+Example C11_T9_example :
+  let s := fst (lrun lnone [LCreate KSock true 0; LInit; LStart]) in
+  LInv s /\ l_alive s = true /\ l_handle s = true /\ l_recv s = true /\
+  match lrun_code LidarDriverImpl_stop_effects (mk_lm s false) with Go m => l_handle (m_l m) = false /\ l_recv (m_l m) = false /\ m_exit m = true | _ => False end.
+Proof. split; [apply linv_run, linv_none|]. vm_compute. repeat split; reflexivity. Qed.
+
